@@ -72,7 +72,7 @@ func runC03(c map[string]interface{}) []Event {
 			ln := l.Length()
 			e["len"], e["lenexact"] = int(math.Round(ln)), ln == math.Round(ln)
 			e["oplen"] = int(math.Round(op.Length(l)))
-			ml := geom.MultiLineString{l, l}
+			ml := geom.MultiLineString{l, l[:2]} // the path and its first segment
 			e["mllen"] = int(math.Round(ml.Length()))
 			d := l.Distance(q)
 			e["d2K"] = int(math.Round(d * d * c03K))
